@@ -130,6 +130,9 @@ def hyp_search(strategy, check, col, *, max_examples, seed, shrink=True, attribu
             last["f"] = (case, message, bucket)
             raise Violation(message)
 
+    if CG and not CG.get("used"):  # one coverage-guided search per process (libFuzzer's driver cannot be re-entered)
+        CG["used"] = True
+        return _cg_drive(t, last, col, check, attribute, post_min)
     try:
         t()
     except Violation:
@@ -171,6 +174,112 @@ def hyp_search(strategy, check, col, *, max_examples, seed, shrink=True, attribu
         except Exception:  # noqa
             pass
         col.error("harness exception%s: ...%s" % (where, tb[-2500:]))
+    return col
+
+
+CG = None  # set by fuzz/cg_shard.py: {"runs", "seed", "max_len", "workdir"} -> hyp_search is driven by atheris
+
+
+def _patch_bytestring_provider():
+    """Hypothesis 6.168's BytestringProvider.draw_integer draws `bits` bits and rejects until the RAW value lies in
+    [min_value, max_value] - it never adds min_value, so integers(2, 3) (one bit: 0 or 1) can never be produced and every
+    buffer overruns. The harness replaces the method by the offset form (same byte consumption)."""
+    from hypothesis.internal.conjecture.providers import BytestringProvider
+
+    if getattr(BytestringProvider, "_vf_patched", False):
+        return
+
+    def draw_integer(self, min_value=None, max_value=None, *, weights=None, shrink_towards=0):
+        if min_value is None and max_value is None:
+            min_value, max_value = -(2**127), 2**127 - 1
+        elif min_value is None:
+            min_value = max_value - 2**64
+        elif max_value is None:
+            max_value = min_value + 2**64
+        if min_value == max_value:
+            return min_value
+        bits = (max_value - min_value).bit_length()
+        value = min_value + self._draw_bits(bits)
+        while value > max_value:
+            value = min_value + self._draw_bits(bits)
+        return value
+
+    BytestringProvider.draw_integer = draw_integer
+    BytestringProvider._vf_patched = True
+
+
+def _cg_drive(t, last, col, check, attribute, post_min):
+    """Coverage-guided variant of the search: libFuzzer (atheris) supplies the byte strings from which Hypothesis
+    builds the cases (`fuzz_one_input`), keeping those that reach new coverage in the instrumented library.
+    A failing case is recorded once per bucket and the search continues."""
+    import sys
+    import threading
+    import time
+
+    cfg = CG
+    _patch_bytestring_provider()
+    fuzz_one = t.hypothesis.fuzz_one_input
+    runs = cfg["runs"]
+    state = {"n": 0, "valid": 0, "err": None}
+    muted = set()
+    done = threading.Event()
+    evals0 = col.evaluations
+
+    def one(data):
+        if done.is_set():
+            while True:
+                time.sleep(3600)
+        state["n"] += 1
+        before = col.evaluations
+        try:
+            fuzz_one(data)
+        except Violation:
+            case, message, bucket = last["f"]
+            if bucket not in muted:
+                muted.add(bucket)
+                if post_min is not None:
+                    try:
+                        small = post_min(case, lambda c, _b=bucket: any(b == _b and not (attribute and attribute(c, m, b)) for m, b in (check(c) or [])))
+                        msgs = [(m, b) for m, b in (check(small) or []) if b == bucket]
+                        if msgs:
+                            case, message = small, msgs[0][0]
+                    except Exception:
+                        pass
+                col.fail(case, "[coverage-guided] " + message, bucket)
+        except BaseException:  # noqa - harness problem, never a verdict
+            if state["err"] is None:
+                state["err"] = traceback.format_exc()[-2500:]
+                col.error("coverage-guided stage: harness exception: ...%s" % state["err"])
+            done.set()
+            return
+        if col.evaluations > before:
+            state["valid"] += 1
+        if state["n"] >= runs:
+            done.set()
+
+    corpus = os.path.join(cfg["workdir"], "corpus")
+    os.makedirs(corpus, exist_ok=True)
+    # starting corpus: the empty input plus a few pseudo-random byte strings derived from the shard seed (so that the first
+    # generated cases are not all minimal); everything after that is libFuzzer's mutation of what reached new coverage
+    for i in range(cfg.get("seeds", 12)):
+        blob, want = b"", (48, 128, 320, 800)[i % 4]
+        k = 0
+        while len(blob) < want:
+            blob += hashlib.sha256(("%s|%s|%s" % (cfg["seed"], i, k)).encode()).digest()
+            k += 1
+        with open(os.path.join(corpus, "seed%02d" % i), "wb") as fh:
+            fh.write(blob[:want])
+    argv = [sys.argv[0], "-runs=-1", "-seed=%d" % cfg["seed"], "-max_len=%d" % cfg["max_len"], "-len_control=0", "-timeout=600", "-rss_limit_mb=0",
+            "-artifact_prefix=" + os.path.join(cfg["workdir"], "art-"), corpus]
+
+    # libFuzzer's driver installs signal handlers and never returns: it runs in the MAIN thread (fuzz/cg_shard.py), this
+    # function runs in the shard thread and waits until the last execution has been made
+    cfg["handoff"].put((argv, one))
+    done.wait()
+    col.count("cg_execs", state["n"])
+    col.count("cg_execs_reaching_the_oracle", state["valid"])
+    col.count("cg_corpus_entries", len(os.listdir(corpus)))
+    col.notes.append("coverage-guided stage (atheris/libFuzzer driving the check's Hypothesis strategy through fuzz_one_input, library byte-code instrumented) ran")
     return col
 
 
